@@ -40,6 +40,11 @@ def obligations(tier):
                 obs.append(Ob(f"standalone-config-{cname}/{spec_name((kind, name, kw))}", dict(spec=[kind, name, kw], n0=n0, grow=grow, host="indicator", tail=0, extra=extra), CFG,
                               weight=10, budget_s=300, max_paths=20000, selfcheck=False))
         obs.append(Ob(f"standalone/{spec_name((kind, name, kw))}", dict(spec=[kind, name, kw], n0=n0, grow=grow, host="indicator", tail=tail), CFG, weight=10, budget_s=900, max_paths=20000, selfcheck=False))
+    # a streak that lasts as long as the history (the counted condition holds on every candle of a flat history, or the
+    # input is missing throughout): the count is carried forward, not re-counted
+    for ckw in (dict(input_value="positive", count_value=False), dict(input_value="negative", count_value=False), dict(input_value="no_such_reading")):
+        obs.append(Ob(f"standalone-flat-history/long-streak/Counter{ckw}", dict(spec=["ind", "Counter", ckw], n0=12, grow=grow, host="indicator", tail=1, flat=True), CFG,
+                      weight=10, budget_s=300, max_paths=20000, selfcheck=False))
     # analysis wrappers over an input that has NO reading on any candle (a misspelt name, a dict field that stays None):
     # a scan that looks for `length` valid readings instead of over `length` bars walks the whole history
     for kind, name, kw, w in all_specs(tier):
